@@ -23,9 +23,12 @@ HARNESSES = {
     'k_chrono_sub_is_day_difference_bounded': ('K-chrono', [('A-date.sub', 'BOUNDED (years 1890..=2110): (a - b).num_days() is the difference of day numbers')]),
     'k_window_logic': ('K-window', [('C01.window_edges', 'the two day-difference tests of match_bed_and_breakfast accept exactly 1..=30 days (every i64)')]),
     'k_window_days_diff': ('K-chrono', [('C01.window_days', 'days_diff as computed in match_bed_and_breakfast equals k for the date k days after D, every D, k in -3..=35')]),
+    'k_dec_round_scale3_bounded': ('K-decimal', [('A-dec.round3', 'BOUNDED (every i32 mantissa, scale 3): rust_decimal round_dp_with_strategy(2, MidpointAwayFromZero) == magnitude rounded half up, sign kept')]),
+    'k_dec_round_scale4_bounded': ('K-decimal', [('A-dec.round4', 'BOUNDED (every i32 mantissa, scale 4): the same at four decimal places')]),
+    'k_dec_round_le2_bounded': ('K-decimal', [('A-dec.round_id', 'BOUNDED (every i32 mantissa, scale 0..=2): a value with at most two decimal places is returned unchanged')]),
 }
 # harnesses that take minutes (two symbolic dates / date arithmetic): thorough tier only
-SLOW = {'k_chrono_succ', 'k_chrono_order', 'k_chrono_sub_days', 'k_chrono_sub_is_day_difference_bounded', 'k_window_days_diff'}
+SLOW = {'k_dec_round_scale3_bounded', 'k_dec_round_scale4_bounded', 'k_dec_round_le2_bounded', 'k_chrono_succ', 'k_chrono_order', 'k_chrono_sub_days', 'k_chrono_sub_is_day_difference_bounded', 'k_window_days_diff'}
 # which harnesses decide / support which property
 PROP_HARNESSES = {
     'C07': ['k_taxyear_from_date', 'k_taxyear_new_and_bounds', 'k_taxyear_window', 'k_filter_window_eq_from_date', 'k_explain_year_eq_from_date',
@@ -33,6 +36,7 @@ PROP_HARNESSES = {
     'C01': ['k_window_logic', 'k_window_days_diff', 'k_chrono_order', 'k_chrono_succ', 'k_chrono_sub_is_day_difference_bounded'],
     'C12': ['k_window_logic', 'k_window_days_diff', 'k_filter_window_eq_from_date'],
     'C19': ['k_chrono_sub_days', 'k_chrono_order'],
+    'C17': ['k_dec_round_scale3_bounded', 'k_dec_round_scale4_bounded', 'k_dec_round_le2_bounded'],
 }
 
 
@@ -250,7 +254,8 @@ def merge(pid, kr, dec, known):
         unit, obs = HARNESSES[h]
         for oid, what in obs:
             is_prop = oid.split('.')[0] == pid
-            ob = {'id': oid, 'tags': [oid], 'unit': unit, 'function': 'kani harness ' + h, 'kind': 'kani-proof', 'clause': what, 'backend': 'Kani-CBMC (loop-free, complete over all representable dates)'}
+            ob = {'id': oid, 'tags': [oid], 'unit': unit, 'function': 'kani harness ' + h, 'kind': 'kani-proof', 'clause': what,
+                  'backend': 'Kani-CBMC (BOUNDED stand-in, not counted as proved: see clause)' if 'BOUNDED' in what else 'Kani-CBMC (loop-free, complete over all representable dates)'}
             if kr['error']:
                 ob['status'] = 'undecided'; ob['why'] = kr['error']
             elif v['ok']:
